@@ -7,7 +7,7 @@ use serde_json::value::RawValue as RawJsonValue;
 #[cfg(feature = "unstable-msc4274")]
 use super::gallery::GalleryItemType;
 use super::{
-    relation_serde::deserialize_relation, MessageType, RoomMessageEventContent,
+    relation_serde::deserialize_relation, MessageType, Relation, RoomMessageEventContent,
     RoomMessageEventContentWithoutRelation,
 };
 use crate::Mentions;
@@ -24,7 +24,33 @@ impl<'de> Deserialize<'de> for RoomMessageEventContent {
 
         let MentionsDeHelper { mentions } = from_raw_json_value(&json)?;
 
-        Ok(Self { msgtype: from_raw_json_value(&json)?, relates_to, mentions })
+        let mut msgtype = from_raw_json_value(&json)?;
+        remove_outer_fields(
+            &mut msgtype,
+            matches!(relates_to, Some(Relation::Replacement(_))),
+            relates_to.is_some(),
+        );
+
+        Ok(Self { msgtype, relates_to, mentions })
+    }
+}
+
+/// Remove the fields that belong to the event content rather than to the message type from the
+/// data of a custom message type.
+///
+/// A custom message type keeps all the fields that it doesn't know, which includes the ones that
+/// are deserialized separately by the event content. They would be serialized twice otherwise.
+fn remove_outer_fields(msgtype: &mut MessageType, has_new_content: bool, has_relation: bool) {
+    if let MessageType::_Custom(custom) = msgtype {
+        // `m.mentions` is always deserialized by the event content.
+        custom.data.remove("m.mentions");
+
+        if has_relation {
+            custom.data.remove("m.relates_to");
+        }
+        if has_new_content {
+            custom.data.remove("m.new_content");
+        }
     }
 }
 
@@ -37,7 +63,10 @@ impl<'de> Deserialize<'de> for RoomMessageEventContentWithoutRelation {
 
         let MentionsDeHelper { mentions } = from_raw_json_value(&json)?;
 
-        Ok(Self { msgtype: from_raw_json_value(&json)?, mentions })
+        let mut msgtype = from_raw_json_value(&json)?;
+        remove_outer_fields(&mut msgtype, false, false);
+
+        Ok(Self { msgtype, mentions })
     }
 }
 
